@@ -10,7 +10,9 @@
 //           any of freq (derived only) name rstname (derived only) trig psync rst act init may be "-": the optional
 //           ClockConfig field is then left UNSET, i.e. inherited from the parent / defaulted by the frontend)
 //   input <idx> w=<width> clk=<c>       (the pin is created inside ClockScope(c), i.e. attached to that clock)
-//   reg <idx> clk=<c> w=<width> rstval=<bits|-> d=<expr|-> en=<expr|->
+//   reg <idx> clk=<c> w=<width> rstval=<bits|-> d=<expr|-> en=<expr|-> [scopes=<s>;<s>;..]
+//          (scopes: the register is created by the frontend's reg() inside these nested scopes, outermost first:
+//           E:<expr> ENIF, A ENALWAYS, I:<expr> IF, L:<expr> ELSE branch of IF(<expr>); en must then be -)
 //   order <r>*                         (model only: order in which clocked nodes are visited; ignored here)
 //   rstev <n>/<d> <clk> <0|1>          extra Event::Type::resetValueChange pushed into m_nextEvents after powerOn
 //   stim <n>/<d> <pin>=<bits> ...      one simulation process: WaitFor until that time, then drive the pins
@@ -64,7 +66,7 @@ static std::string ratStr(const Rat &r) { return std::to_string(r.numerator()) +
 
 // optional ClockConfig fields are kept as text: "-" = left unset (the frontend then inherits from the parent / uses the default)
 struct ClockSpec { int idx, parent; std::string freq, name, rstname, trig, psync, rst, act, init; Rat mrt; size_t mrc; };
-struct RegSpec { int idx, clk; size_t w; std::string rstval, d, en; };
+struct RegSpec { int idx, clk; size_t w; std::string rstval, d, en, scopes; };
 struct Stim { Rat t; std::vector<std::pair<int, std::string>> writes; };
 struct RstEv { Rat t; int clk; bool level; };
 struct Case {
@@ -128,6 +130,32 @@ struct Builder {
 		throw std::runtime_error("build: bad expr");
 	}
 };
+
+// ---- registers created through the frontend inside nested scopes --------------------------------------
+// scopes=<s>;<s>;...  outermost first;  s = E:<expr> ENIF | A ENALWAYS | I:<expr> IF | L:<expr> the ELSE branch of IF(<expr>)
+// The register is made by the frontend's reg() at the innermost level, i.e. its ENABLE is whatever
+// EnableScope / ConditionalScope accumulated (internal::reg: scope->getFullEnableCondition()).
+struct ScopeInst { char kind; Bit cond; };
+static hlim::Node_Register *makeScopedReg(const std::vector<ScopeInst> &sc, size_t level, const UInt &d, const std::optional<UInt> &rv, const Clock &clk) {
+	if (level == sc.size()) {
+		RegisterSettings st; st.clock = clk;
+		UInt q = rv ? reg(d, *rv, st) : reg(d, st);
+		hlim::NodePort p = q.readPort();
+		for (int i = 0; i < 8 && p.node && !dynamic_cast<hlim::Node_Register *>(p.node); i++) p = p.node->getNonSignalDriver(0);
+		auto *r = dynamic_cast<hlim::Node_Register *>(p.node);
+		if (!r) throw std::runtime_error("scoped reg: register node not found");
+		return r;
+	}
+	hlim::Node_Register *res = nullptr;
+	switch (sc[level].kind) {
+		case 'E': ENIF (sc[level].cond) res = makeScopedReg(sc, level + 1, d, rv, clk); break;
+		case 'A': ENALWAYS res = makeScopedReg(sc, level + 1, d, rv, clk); break;
+		case 'I': IF (sc[level].cond) res = makeScopedReg(sc, level + 1, d, rv, clk); break;
+		case 'L': IF (sc[level].cond) { } ELSE res = makeScopedReg(sc, level + 1, d, rv, clk); break;
+		default: throw std::runtime_error("bad scope kind");
+	}
+	return res;
+}
 
 // ---- simulator with access to the event queue --------------------------------------------------
 struct Sim : public sim::ReferenceSimulator {
@@ -206,6 +234,26 @@ static void runCase(const Case &cs, std::ostream &out) {
 	Builder b{ cs, clocks, regPh, inSig };
 	std::vector<hlim::Node_Register *> regNodes;
 	for (auto &r : cs.regs) {
+		if (!r.scopes.empty()) {
+			// everything the scopes and the register read is built OUTSIDE the scopes (no conditional assignments)
+			if (r.d == "-" || r.en != "-") throw std::runtime_error("scoped register needs d= and en=-");
+			std::vector<ScopeInst> sc;
+			for (auto &t : split(r.scopes, ';')) {
+				if (t == "A") { sc.push_back({ 'A', Bit('1') }); continue; }
+				if (t.size() < 3 || t[1] != ':') throw std::runtime_error("bad scope " + t);
+				size_t p = 0; Expr e = parseExpr(t.substr(2), p); UInt c = b.build(e, r.clk);
+				if (c.width().bits() != 1) throw std::runtime_error("scope condition must be one bit");
+				sc.push_back({ t[0], c[0] });
+			}
+			size_t p = 0; Expr e = parseExpr(r.d, p); UInt d = b.build(e, r.clk);
+			if (d.width().bits() != r.w) throw std::runtime_error("data width mismatch");
+			std::optional<UInt> rv;
+			if (r.rstval != "-") { auto *n = DesignScope::createNode<hlim::Node_Constant>(vh::fromBits(r.rstval), hlim::ConnectionType::BITVEC); rv.emplace(SignalReadPort(n)); }
+			auto *reg = makeScopedReg(sc, 0, d, rv, clocks.at(r.clk));
+			reg->setName("r" + std::to_string(r.idx));
+			regNodes.push_back(reg);
+			continue;
+		}
 		auto *reg = DesignScope::createNode<hlim::Node_Register>();
 		reg->setName("r" + std::to_string(r.idx));
 		if (r.rstval != "-") {
@@ -302,6 +350,8 @@ int main(int argc, char **argv) {
 			} else if (tok[0] == "input") { cs.inputs.push_back({ std::stoi(tok.at(1)), std::stoull(kv(tok, "w")), std::stoi(kv(tok, "clk")) }); }
 			else if (tok[0] == "reg") {
 				RegSpec r; r.idx = std::stoi(tok.at(1)); r.clk = std::stoi(kv(tok, "clk")); r.w = std::stoull(kv(tok, "w")); r.rstval = kv(tok, "rstval"); r.d = kv(tok, "d"); r.en = kv(tok, "en");
+				r.scopes = "";
+				for (auto &t : tok) if (t.rfind("scopes=", 0) == 0) r.scopes = t.substr(7);
 				if (r.idx != (int)cs.regs.size()) throw std::runtime_error("reg numbering");
 				cs.regs.push_back(r);
 			} else if (tok[0] == "order") { }
